@@ -101,7 +101,7 @@ func (in *Input) tags(w *World, first *GenResult) []string {
 	if len(in.Globals) > 0 {
 		t = append(t, "globals")
 	}
-	nImp, mapv, meth, alias, deferd := 0, false, false, false, false
+	nImp, mapv, mapk, meth, alias, deferd := 0, false, false, false, false, false
 	for _, g := range in.Gens {
 		if g.Alias {
 			alias = true
@@ -114,13 +114,16 @@ func (in *Input) tags(w *World, first *GenResult) []string {
 				if d == "mapvar" {
 					mapv = true
 				}
+				if strings.HasPrefix(d, "mapvar:") {
+					mapk = true
+				}
 			}
 			meth = meth || f.Methods
 			deferd = deferd || len(f.Defer) > 0
 		}
 	}
 	t = append(t, "import-refs="+bucket(nImp))
-	for k, v := range map[string]bool{"map-literal": mapv, "methods-probe": meth, "alias-generator": alias, "defer": deferd, "world-error": w.Err != ""} {
+	for k, v := range map[string]bool{"map-literal": mapv, "map-literal:non-string-keys": mapk, "methods-probe": meth, "alias-generator": alias, "defer": deferd, "world-error": w.Err != ""} {
 		if v {
 			t = append(t, k)
 		}
@@ -137,6 +140,8 @@ var lightStd = []string{"strings.ToUpper", "sort.Strings", "strconv.Itoa", "erro
 var typeNames = []string{"T", "U", "V", "A", "B", "Item", "Node", "K", "P", "Q", "L", "Elem", "Key", "Val", "Opt", "Cfg", "Spec", "Status", "Kind", "Meta",
 	"item", "node", "opt", "X1", "X2", "X3", "X4", "X5", "X6", "X7", "X8", "X9", "Y1", "Y2", "Y3", "Y4", "Y5", "Y6", "Y7", "Y8", "Y9", "Z1", "Z2", "Z3", "Z4", "Z5"}
 
+var keyKinds = []string{"int", "int", "uint8", "bool", "month", "rune", "float64"}
+
 func genNames() []string { return []string{"rec", "rec2", "al", "deep", "x"} }
 
 type builder struct {
@@ -151,8 +156,10 @@ func (b *builder) declKinds(max int) []string {
 		switch k := b.r.Intn(10); {
 		case k < 3:
 			out = append(out, "func")
-		case k < 5:
+		case k < 4:
 			out = append(out, "mapvar")
+		case k < 6: // a map literal with 2-8 entries whose keys are not strings
+			out = append(out, fmt.Sprintf("mapvar:%s:%d", core.Pick(b.r, keyKinds), 2+b.r.Intn(7)))
 		default:
 			out = append(out, "id:"+core.Pick(b.r, lightStd))
 		}
@@ -420,6 +427,15 @@ func corner() []*Input {
 		in.Globals = [][2]string{{"gengo:rec", "true"}, {"gengo:rec2", ""}}
 		out = append(out, in)
 	}
+	// map literals with non-string keys (int, uint8, bool, a named int of another package, rune, float64), 2-8 entries each
+	{
+		var decls []string
+		for i, kt := range []string{"int", "uint8", "bool", "month", "rune", "float64"} {
+			decls = append(decls, fmt.Sprintf("mapvar:%s:%d", kt, 8-i%3), fmt.Sprintf("mapvar:%s:%d", kt, 2+i%2))
+		}
+		out = append(out, one([]ObjSpec{{Kind: "struct", Name: "T", Doc: enable("rec")}, {Kind: "int", Name: "U", Doc: enable("rec")}},
+			[]GenSpec{{Name: "rec", Script: map[string]FragSpec{"0/0": {Outcome: "render", Decls: decls}, "0/1": {Outcome: "render", Decls: []string{"mapvar:int:5"}, Defer: []string{"mapvar:uint8:3"}}}}}))
+	}
 	// several packages, permuted entrypoints, stale files, a previous sum, alias generator, ignore / skip
 	{
 		in := &Input{Mod: "example.com/proj", GoVer: "1.22", All: true, Entry: []string{"c/d", "a", "b"},
@@ -677,6 +693,15 @@ func (prop) Shrink(raw json.RawMessage) []json.RawMessage {
 				}
 				c.Gens[gi].Script[k] = f2
 				add(c)
+			}
+			for di := range f.Decls {
+				if len(f.Decls) > 1 {
+					c := clone(&in)
+					f2 := c.Gens[gi].Script[k]
+					f2.Decls = append(append([]string{}, f.Decls[:di]...), f.Decls[di+1:]...)
+					c.Gens[gi].Script[k] = f2
+					add(c)
+				}
 			}
 		}
 	}
